@@ -14,8 +14,8 @@ structure RowsOK {α : Type} (x : Ext α) (sh : Nat → String) (a : Acq) (ci : 
   chanIdx : ci < a.channels.length
   /-- the channel row is compared after truncation to 7 characters: the requested channel is recognisable -/
   chans : ∀ c, c < a.channels.length → (trunc 7 (a.chan c) == a.chan ci) = (c == ci)
-  /-- scan numbers survive `str` → 4-character field → `int` -/
-  scans : ∀ s, s < a.nscans → x.readNat (trunc 4 (sh s)) = some s
+  /-- scan numbers survive `str` → 16-character field → `int` -/
+  scans : ∀ s, s < a.nscans → x.readNat (trunc 16 (sh s)) = some s
 
 def blankHdr : Hdr := { run := "", scan := "", name := "", type := "" }
 
@@ -139,7 +139,7 @@ theorem readRowsH_render {α : Type} (x : Ext α) (sh : Nat → String) (comma :
     right; right; left
     rw [List.any_eq_true]
     exact ⟨(0, 0, ci), mem_enumRows.mpr ⟨hm, hk, hci⟩, by simp [hdrOf, trunc8_mainruns]⟩
-  have hscan : allSome (((rowsSel a.nscans a.elements.length ci).map (hdrOf sh a)).map (fun h => x.readNat (trunc 4 h.scan)))
+  have hscan : allSome (((rowsSel a.nscans a.elements.length ci).map (hdrOf sh a)).map (fun h => x.readNat (trunc 16 h.scan)))
       = some ((rowsSel a.nscans a.elements.length ci).map (·.1)) := by
     rw [List.map_map]
     apply allSome_map
